@@ -175,8 +175,20 @@ def run(pid, tier, seed):
         from .. import values
         vgen = values.Gen(tbl, chk.rng)
         reqs = [("probes", vgen.value(3)) for _ in range(200 if quick else 30000)]
-        for g in drv.ask_many(reqs):
-            chk.rel("corr.C03.probes", g[1] == "0", {"model": sexp.dumps(g)})
+
+        def class_objects(d):
+            if isinstance(d, str):
+                return 0
+            if d[0] == "classObj":
+                return 1
+            if d[0] in ("inst", "str"):
+                return 0
+            if d[0] in ("dict", "ddict"):
+                return sum(class_objects(k) + class_objects(v) for k, v in d[1:])
+            return sum(class_objects(x) for x in d[1:])
+        for (_, d), g in zip(reqs, drv.ask_many(reqs)):
+            # no unsafe probe; class objects are hashed (typing's cache) exactly where the value is a class object
+            chk.rel("corr.C03.probes", g[1] == "0" and int(g[2]) == class_objects(d), {"model": sexp.dumps(g), "value": sexp.dumps(d)})
         chk.sample({"workloads": [w for w, _ in WORKLOADS], "faults": [f[0] for f in FAULTS]})
     finally:
         pd.close()
